@@ -94,6 +94,26 @@ static const VSpec VM_SPEC[VM_NS] = {
 struct A : St<1> {}; struct U : St<2> {}; struct O : St<3> {}; struct P : St<4> {}; struct P1 : St<5> {}; struct P2 : St<6> {};
 struct W : St<7> {}; struct W1 : St<8> {}; struct W2 : St<9> {}; struct Q : St<10> {}; struct Q1 : St<11> {}; struct Q2 : St<12> {}; struct U1 : St<13> {};
 #define VM_FOR_STATES(F_) F_(A, 1) F_(U, 2) F_(O, 3) F_(P, 4) F_(P1, 5) F_(P2, 6) F_(W, 7) F_(W1, 8) F_(W2, 9) F_(Q, 10) F_(Q1, 11) F_(Q2, 12) F_(U1, 13)
+#elif defined(VM_RANDOM_WITH_REGION)
+// random region whose FIRST option is itself a region (a composite with two leaves), followed by two leaves
+using FSM = M::PeerRoot< S(A), M::Random<S(N), M::Composite<S(P), S(P1), S(P2)>, S(N2), S(N3)> >;
+#define VM_NS 8
+#define VM_NC 3
+#include "tier_c/spec_types.hpp"
+static const VSpec VM_SPEC[VM_NS] = {
+  /*0 root*/ { -1, 0, K_COMPO, 2, ST_COMPOSITE, 0 },
+  /*1 A   */ {  0, 0, K_LEAF,  0, ST_NONE,     -1 },
+  /*2 N   */ {  0, 1, K_COMPO, 3, ST_RANDOM,    1 },
+  /*3 P   */ {  2, 0, K_COMPO, 2, ST_COMPOSITE, 2 },
+  /*4 P1  */ {  3, 0, K_LEAF,  0, ST_NONE,     -1 },
+  /*5 P2  */ {  3, 1, K_LEAF,  0, ST_NONE,     -1 },
+  /*6 N2  */ {  2, 1, K_LEAF,  0, ST_NONE,     -1 },
+  /*7 N3  */ {  2, 2, K_LEAF,  0, ST_NONE,     -1 },
+};
+#define VM_NCFG 5
+#include "tier_c/machine_common.hpp"
+struct A : St<1> {}; struct N : St<2> {}; struct P : St<3> {}; struct P1 : St<4> {}; struct P2 : St<5> {}; struct N2 : St<6> {}; struct N3 : St<7> {};
+#define VM_FOR_STATES(F_) F_(A, 1) F_(N, 2) F_(P, 3) F_(P1, 4) F_(P2, 5) F_(N2, 6) F_(N3, 7)
 #elif defined(VM_NESTED_UTIL)
 // utilitarian region whose FIRST prong is a nested utilitarian region, a leaf, and an orthogonal prong containing another utilitarian region
 // (utility of a nested region = head x chosen sub; orthogonal = head x mean)
